@@ -8,6 +8,7 @@
     it depend on the key-value content alone — not on the order of operations. *)
 From Coq Require Import List NArith Arith Bool.
 From Kardia Require Import C07.Model C07.ProofsBase C07.ProofsMap C07.ProofsCanon C07.ProofsEnc C07.ProofsCache C07.ProofsRlp C07.ProofsCodec C07.ProofsCommit C07.ProofsReopen C07.ProofsProof C07.ProofsBuild C07.ProofsStack C07.ProofsStackIns C07.Open.
+From Kardia Require Import C07.ModelRange C07.ProofsIter C07.ProofsRange C07.ProofsView C07.SourceTie.
 Import ListNotations.
 
 (** keybytesToHex is injective on byte strings and yields well-formed keys *)
@@ -276,6 +277,158 @@ Proof.
   intros H Hlen kvs Hok Hs. apply (stack_equals H Hlen); auto. apply sorted_bytes_pf; auto.
 Qed.
 Print Assumptions C07_stack_equals.
+
+(** canonical root, with an intermediate COMMIT: after any history of Update / Delete / Hash(), a
+    Commit (Trie.Commit(false) + Database.Update: the root becomes a hash node, every node is
+    resolved from the database on demand) and any further history of Update / Delete / Hash() —
+    now running THROUGH hash nodes — no operation fails, Get returns the last value written, and
+    the root Trie.Hash reports equals the root of ANY history without the commit that ends with
+    the same content.  Or an explicit Keccak collision exists.  [small_op]: keys and values of the
+    second history are shorter than 2^30 bytes (as [bounded] says for the first). *)
+Theorem C07_root_independent_of_commit :
+  forall (H : bytes -> bytes), (forall x, length (H x) = 32) ->
+  forall d0 d ops1 n1 ops2,
+  Forall (fun o => is_bytes (hop_key o)) ops1 ->
+  hrun H d0 Empty ops1 = Ok n1 -> n1 <> Empty ->
+  let m1 := content (fun _ => []) (flat_map hop_mop ops1) in
+  bounded m1 ->
+  Forall (fun o => is_bytes (hop_key o) /\ small_op o) ops2 ->
+  let m2 := content m1 (flat_map hop_mop ops2) in
+  let '(h, root', set) := trie_commit H n1 in
+  let d' := set ++ d in
+  collision H \/
+  (h = fst (trie_hash H n1) /\
+   exists n2', hrun H d' root' ops2 = Ok n2' /\
+     (forall kb, is_bytes kb -> exists r, trie_get d' n2' kb = Ok (m2 kb, r)) /\
+     (forall d3 ops3 nf,
+        Forall (fun o => is_bytes (hop_key o)) ops3 -> hrun H d3 Empty ops3 = Ok nf ->
+        (forall kb, is_bytes kb -> content (fun _ => []) (flat_map hop_mop ops3) kb = m2 kb) ->
+        fst (trie_hash H n2') = fst (trie_hash H nf))).
+Proof.
+  intros H Hlen d0 d ops1 n1 ops2 Hk1 Hr1 Hne m1 Hb1 Hk2 m2.
+  destruct (hrun_represents H d0 ops1 _ Empty represents_empty I Hk1) as (nx & E1 & P1 & C1).
+  rewrite Hr1 in E1. inversion E1; subst nx.
+  pose proof (commit_view H d m1 n1 P1 C1 Hb1 Hne) as Hcv.
+  destruct (trie_commit H n1) as [[h root'] set]. destruct Hcv as [Col|(Eh & Er & Hvs)]; [left; exact Col|].
+  right. split; [exact Eh|].
+  destruct (vrun H Hlen (set ++ d) ops2 m1 root' Hvs Hk2) as (n2' & Hrun & Hvs2).
+  exists n2'. split; [exact Hrun|]. split.
+  - intros kb Hkb. apply (vstate_get H Hlen (set ++ d) m2 n2' kb Hvs2 Hkb).
+  - intros d3 ops3 nf Hk3 Hr3 Hm.
+    destruct (hrun_represents H d3 ops3 _ Empty represents_empty I Hk3) as (ny & E3 & P3 & C3).
+    rewrite Hr3 in E3. inversion E3; subst ny.
+    destruct (trie_hash_ok H nf C3) as (T & _). rewrite T.
+    apply (vstate_root H (set ++ d) m2 n2' _ nf Hvs2 P3). intros kb Hkb. symmetry. apply Hm; auto.
+Qed.
+Print Assumptions C07_root_independent_of_commit.
+
+(** leaf iterator (NewIterator(t.NodeIterator(start)), which hashes the trie first): after any
+    history of Update / Delete / Hash() the iterator yields exactly the entries of the content whose
+    path (nibbles, terminator) is not below the start prefix — every such key once, with the last
+    value written, in strictly increasing path order.  Keys shorter than 199 bytes: the trie is then
+    shallower than the traversal fuel of the model (400 levels; the Go code has no such bound). *)
+Theorem C07_iterator_enumerates :
+  forall (H : bytes -> bytes) d0 d ops n start,
+  Forall (fun o => is_bytes (hop_key o)) ops ->
+  hrun H d0 Empty ops = Ok n ->
+  let m := content (fun _ => []) (flat_map hop_mop ops) in
+  let n' := snd (trie_hash H n) in
+  (forall kb, m kb <> [] -> length kb < 199) ->
+  exists l, iter_from d n' start = Ok l /\
+    ksorted (map (fun kv => keybytes_to_hex (fst kv)) l) /\
+    forall kb v, is_bytes kb ->
+      (In (kb, v) l <->
+       v = m kb /\ v <> [] /\ kcmp (keybytes_to_hex kb) (removelast (keybytes_to_hex start)) <> Lt).
+Proof.
+  intros H d0 d ops n start Hk Hr m n' Hd.
+  destruct (hrun_represents H d0 ops _ Empty represents_empty I Hk) as (n1 & E1 & P1 & C1).
+  rewrite Hr in E1. inversion E1; subst n1.
+  destruct (trie_hash_ok H n C1) as (_ & E2 & _).
+  assert (Hrep' : represents m n').
+  { destruct P1 as [Hc Hrr]. split.
+    - eapply canon_same_erase; [symmetry; exact E2|auto].
+    - intros k w. unfold m. rewrite <- Hrr. apply has_same_erase; auto. }
+  apply iter_from_represents; auto. eapply represents_depth; eauto.
+Qed.
+Print Assumptions C07_iterator_enumerates.
+
+(** the walk itself, on any canonical trie: the leaves in visiting order are the content relation,
+    sorted strictly by path *)
+Theorem C07_walk_is_content :
+  forall d n fuel, canon n -> depth n < fuel ->
+  walk fuel d n [] = Ok (leaves n) /\
+  ksorted (map fst (leaves n)) /\
+  forall k v, In (k, v) (leaves n) <-> has n k v.
+Proof.
+  intros d n fuel Hc Hd. split; [|split].
+  - rewrite (walk_leaves d n Hc fuel [] Hd). f_equal. apply pf_nil.
+  - apply leaves_sorted; auto.
+  - apply leaves_has; auto.
+Qed.
+Print Assumptions C07_walk_is_content.
+
+(** range proofs, the proof-less form (VerifyRangeProof with proof == nil: "the whole leaf set"):
+    acceptance means the claimed root IS the canonical root of exactly the given leaves, and a
+    sorted leaf set is accepted against its root.  PARTIAL: for the two-edge form only the
+    transcription, the correspondence run and the direct oracles exist (and see the refutation below
+    for elements outside the edges); [sorted_bytes]: strictly increasing, no key a prefix of another
+    (the verifier refuses non-increasing keys itself; prefix-related keys make the stack trie panic) *)
+Theorem C07_range_whole_partial :
+  forall (H : bytes -> bytes), (forall x, length (H x) = 32) ->
+  forall root first last (keys vals : list bytes) more,
+  let kvs := combine keys vals in
+  Forall (fun kv => is_bytes (fst kv) /\ snd kv <> []) kvs -> sorted_bytes kvs ->
+  verify_range H root first last keys vals None = RAccept more ->
+  more = false /\ length keys = length vals /\ root = build_root H kvs.
+Proof. exact range_whole_sound. Qed.
+Print Assumptions C07_range_whole_partial.
+
+Theorem C07_range_whole_complete :
+  forall (H : bytes -> bytes), (forall x, length (H x) = 32) ->
+  forall first last (keys vals : list bytes),
+  let kvs := combine keys vals in
+  length keys = length vals ->
+  Forall (fun kv => is_bytes (fst kv) /\ snd kv <> []) kvs -> sorted_bytes kvs ->
+  increasing keys = true ->
+  verify_range H (build_root H kvs) first last keys vals None = RAccept false.
+Proof. exact range_whole_complete. Qed.
+Print Assumptions C07_range_whole_complete.
+
+(** REFUTED (known finding range-outside-element): "an accepted range lists only entries of the
+    trie" fails for keys outside [firstKey, lastKey].  Witness, computed on the model (which
+    transcribes the code: the error of Trie.Update is dropped while the leaves are re-inserted and
+    there is no bound check): trie {10,20,30,40 -> 33 x key byte}, edge proofs for 20 and 30; the
+    stream (10 -> v), 20, 30 is accepted for v = ee AND for v = dd while the trie holds 10 -> 10..10
+    (and the honest stream 20, 30 is accepted).  [h0] is a 32-byte function that computes in Coq. *)
+Theorem C07_range_outside_refuted :
+  (forall x, length (h0 x) = 32) /\
+  match w_trie with
+  | Ok n =>
+    let root := fst (trie_hash h0 n) in
+    match prove h0 [] n [32%N], prove h0 [] n [48%N], trie_get [] n [16%N] with
+    | Ok p1, Ok p2, Ok (stored, _) =>
+      let blobs := p1 ++ p2 in
+      let accepts v := match verify_range h0 root [32%N] [48%N] w_keys (v :: w_rest) (Some blobs) with
+                       | RAccept _ => true | _ => false end in
+      accepts [238%N] && accepts [221%N] && beq stored (w_val 16) &&
+      match verify_range h0 root [32%N] [48%N] [[32]; [48]]%N w_rest (Some blobs) with
+      | RAccept _ => true | _ => false end
+    | _, _, _ => false
+    end
+  | _ => false
+  end = true.
+Proof. exact (conj h0_len range_outside_witness). Qed.
+Print Assumptions C07_range_outside_refuted.
+
+(** source tie: the arithmetic, loop bounds and decisions of the model (hex / compact key codecs,
+    the [len(enc) < 32 && !force] embedding rule of hasher and stack trie, decodeRef's size rules,
+    the guards of Trie.get / insert / delete / Commit / New, Prove, VerifyRangeProof / unsetInternal /
+    unset / hasRightElement, StackTrie.insert / hashRec / Hash and the three loops of DeriveSha) are
+    the expressions go2coq extracted from the Go source on this run, on the same operands
+    (statement and atoms in C07/SourceTie.v; Generated/C07Source.v is rewritten by every check) *)
+Theorem C07_source_tie : C07_source_tie_statement.
+Proof. exact C07_source_tie_proof. Qed.
+Print Assumptions C07_source_tie.
 
 (** the hypotheses are satisfiable and the functions compute: three keys with a shared prefix
     inserted in two different orders (one history also inserts and deletes a fourth key, the
